@@ -24,8 +24,8 @@ def _gate_work(e):
 
 def run(tier):
     run = runner.Run(PID, tier, 'model_checking',
-                     '(A) every return of the E3 prompt tree: a consulted, affirmative, unconditional gate input never coexists with a '
-                     'solved verdict; (B) every frozen (year, base return, gate input or over-limit amount) context of hv/gates.json is '
+                     '(A) every return of the E3 prompt tree: a gate line (frozen (line, input) pairs derived by E4: every execution reading yes '
+                     'refuses) that read yes never coexists with a solved verdict; (B) every frozen (year, base return, gate input or over-limit amount) context of hv/gates.json is '
                      're-declared (through prompt and through the input file) and must not solve; distinct = gate contexts + outcome classes')
     g = e3mon.gates()
     entries = g['entries']
@@ -36,7 +36,7 @@ def run(tier):
             run.violation(f'C09|{e["year"]}|{e["input"]}={e["value"]}|{e["base"]}', dict(engine='gate', entry=e), m)
     run.count('gate_contexts', len(entries))
     run.count('distinct_gates', len(set((e['year'], e['input'], e['value']) for e in entries)))
-    run.count('unconditional_gates', len(g.get('unconditional', [])))
+    run.count('refusing_line_input_pairs', len(g.get('refusing', [])))
     run.evaluations += 2 * len(entries)
     run.states += len(entries)
     run.transitions += 2 * len(entries)
